@@ -48,6 +48,9 @@ type Node struct {
 	Mode      string  `json:"mode"`      // how the context reaches this scope from its parent: shared | fresh | grpc | gin | dubbo
 	Spelling  int     `json:"spelling"`  // header / attachment spelling variant used by the (simulated) remote caller
 	Children  []*Node `json:"children,omitempty"`
+	// Slow: the scope is configured with a transaction timeout of one millisecond and its callback takes a few:
+	// the timeout is the coordinator's business, the client still sends its decision
+	Slow bool `json:"slow,omitempty"`
 }
 
 type Case struct {
@@ -299,7 +302,14 @@ func (ex *execution) transport(parent context.Context, n *Node, path string, cal
 func (ex *execution) run(cctx context.Context, n *Node, path string) error {
 	idx := len(ex.scopes)
 	ex.scopes = append(ex.scopes, oScope{Path: path})
-	err := tm.WithGlobalTx(cctx, &tm.GtxConfig{Name: path, Propagation: tm.Propagation(n.Prop)}, func(c context.Context) error {
+	gc := &tm.GtxConfig{Name: path, Propagation: tm.Propagation(n.Prop)}
+	if n.Slow {
+		gc.Timeout = time.Millisecond
+	}
+	err := tm.WithGlobalTx(cctx, gc, func(c context.Context) error {
+		if n.Slow {
+			defer time.Sleep(4 * time.Millisecond)
+		}
 		ex.scopes[idx].Ran = true
 		ex.scopes[idx].SeenXid = tm.GetXID(c)
 		for i, ch := range n.Children {
@@ -378,8 +388,8 @@ func judge(c Case, ex *execution, events []faketc.Event) *pt.Failure {
 	// observed transactions in begin order
 	var xids []string
 	type txo struct {
-		name                string
-		commits, rollbacks  int
+		name               string
+		commits, rollbacks int
 	}
 	obs := map[string]*txo{}
 	for _, e := range events {
@@ -519,6 +529,7 @@ func drawNode(t *rapid.T, d int, root bool) *Node {
 		Propagate: rapid.Bool().Draw(t, "propagate"),
 		Mode:      "root",
 		Spelling:  rapid.IntRange(0, 11).Draw(t, "spelling"),
+		Slow:      rapid.IntRange(0, 15).Draw(t, "slow") == 7,
 	}
 	if !root {
 		n.Mode = rapid.SampledFrom(modes).Draw(t, "mode")
